@@ -108,7 +108,7 @@ def _mk_objects(case):
     for rx in case['rx']:
         kw = dict(reactants=[by_name[n] for n in rx['lhs']], reactants_stoich=[1.] * len(rx['lhs']),
                   products=[by_name[n] for n in rx['rhs']], products_stoich=[1.] * len(rx['rhs']),
-                  id=rx['id'], A=rx.get('A'), Ea=rx.get('Ea'))
+                  id=None if rx.get('noid') else rx['id'], A=rx.get('A'), Ea=rx.get('Ea'))
         if rx.get('ts'):
             kw.update(transition_state=[by_name[rx['ts']]], transition_state_stoich=[1.])
         elif rx.get('bep'):
@@ -118,8 +118,23 @@ def _mk_objects(case):
             kw.update(transition_state=[beps[rx['bep']]], transition_state_stoich=[1.], direction='cleavage')
         reactions.append(SurfaceReaction(**kw))
     inter = [PiecewiseCovEffect(name_i=i['i'], name_j=i['j'], intervals=[0., 0.5], slopes=[1., 2.],
-                                name=i['name']) for i in case['ia']]
+                                name=None if i.get('noname') else i['name']) for i in case['ia']]
+    # reactions / interactions are recognised by IDENTITY (their id / name may not be assigned yet)
+    LABELS.clear()
+    for rx, obj in zip(case['rx'], reactions):
+        LABELS[id(obj)] = rx['id']
+    for i, obj in zip(case['ia'], inter):
+        LABELS[id(obj)] = i['name']
+    KEEP.append((species, reactions, inter))           # keep every object alive: id() stays unique
     return species, reactions, inter
+
+
+LABELS = {}
+KEEP = []
+
+
+def _label(obj):
+    return LABELS.get(id(obj), '?%s' % (getattr(obj, 'id', None) or getattr(obj, 'name', None),))
 
 
 def _rx_species(rx):
@@ -150,8 +165,8 @@ def _project(phases):
     for p in phases:
         out.append({'name': p.name, 'cls': type(p).__name__,
                     'species': [s.name for s in p.species],
-                    'reactions': [r.id for r in (p.reactions or [])],
-                    'inters': [i.name for i in (getattr(p, 'interactions', None) or [])]})
+                    'reactions': [_label(r) for r in (p.reactions or [])],
+                    'inters': [_label(i) for i in (getattr(p, 'interactions', None) or [])]})
     return out
 
 
@@ -163,8 +178,8 @@ def _key(k):
     return ['obj', str(getattr(k, 'name', '?'))]
 
 
-def _project_helper(d, attr):
-    return [[_key(k), [str(getattr(x, attr)) for x in v]] for k, v in d.items()]
+def _project_helper(d, species=False):
+    return [[_key(k), [str(x.name) if species else _label(x) for x in v]] for k, v in d.items()]
 
 
 OWN_KEYS = ('name', 'phase_type')
@@ -187,7 +202,8 @@ def _snapshot(dicts):
 
 
 def _lists(species, reactions, inter):
-    return [[s.name for s in species or []], [r.id for r in reactions or []], [i.name for i in inter or []]]
+    return [[s.name for s in species or []], [_label(r) for r in reactions or []],
+            [_label(i) for i in inter or []]]
 
 
 # --------------------------------------------------------------------------
@@ -207,12 +223,12 @@ def _run(case):
     def helpers(species, reactions, inter, when):
         calls = []
         if case['spgiven']:
-            calls.append(('species', lambda: _project_helper(get_species_phases(species), 'name')))
+            calls.append(('species', lambda: _project_helper(get_species_phases(species), species=True)))
         if case['rxgiven']:
-            calls.append(('reactions', lambda: _project_helper(get_reactions_phases(reactions), 'id')))
+            calls.append(('reactions', lambda: _project_helper(get_reactions_phases(reactions))))
         if case['iagiven'] and case['spgiven']:
             calls.append(('interactions', lambda: _project_helper(
-                get_interactions_phases(inter, pmutt_list_to_dict(species)), 'name')))
+                get_interactions_phases(inter, pmutt_list_to_dict(species)))))
         for which, fn in calls:
             ev = {'ev': 'helper', 'which': which, 'when': when, 'raised': False, 'res': []}
             try:
@@ -359,6 +375,7 @@ def random_case(rnd, cid):
     members = {p: [s['name'] for s in sp if s['phase'] == p] for p in pnames + ['none']}
     extra = []
     rx, seen = [], set()
+    noid = rnd.random() < 0.3                              # ids not assigned yet (write_cti does it later)
     for k in range(rnd.randint(0, 10)):
         r = rnd.random()
         d = None
@@ -407,6 +424,7 @@ def random_case(rnd, cid):
             continue
         seen.add(sig)
         d['id'] = 'r_%04d' % k if rnd.random() < 0.8 else 'u%d' % k
+        d['noid'] = noid or rnd.random() < 0.05
         d['A'] = rnd.choice([None, 1.0e13])
         rx.append(d)
     ia = []
@@ -415,7 +433,8 @@ def random_case(rnd, cid):
         if not cands:
             break
         p = rnd.choice(cands)
-        ia.append({'name': 'i_%04d' % k, 'i': rnd.choice(members[p]), 'j': rnd.choice(members[p])})
+        ia.append({'name': 'i_%04d' % k, 'i': rnd.choice(members[p]), 'j': rnd.choice(members[p]),
+                   'noname': noid})
     g = rnd.random()
     spgiven = not (g < 0.12 and not ia)
     rxgiven = bool(rx) or rnd.random() < 0.5
@@ -505,7 +524,7 @@ def run(ctx):
                            ctx.pick(NCPU_MODEL, 8), ()),
                 'beh': ('MC_OrganizePhases', 'MC_OrganizePhases_beh', 1, ()),
                 'sim': ('MC_OrganizePhases', 'MC_OrganizePhases_sim', 1,
-                        ('-simulate', 'num=%d' % ctx.pick(1000, 12000), '-depth', '20',
+                        ('-simulate', 'num=%d' % ctx.pick(1000, 8000), '-depth', '20',
                          '-seed', str(ctx.seed + 11)))}
         if not ctx.quick:
             jobs['design4'] = ('MC_OrganizePhases', 'MC_OrganizePhases_big4', 8, ())
@@ -540,7 +559,7 @@ def run(ctx):
             raise core.MachineryError('MC_OrganizePhases_sim produced no behaviours:\n' + res['sim'].out[-2000:])
         ctx.coverage['tlc_simulated_behaviours'] = len(sims)
         cases += [{'raw': p, 'cid': 's%d' % k, 'src': 'sim'} for k, p in enumerate(sims)]
-        cases += [random_case(rnd, 'r%d' % k) for k in range(ctx.pick(1000, 15000))]
+        cases += [random_case(rnd, 'r%d' % k) for k in range(ctx.pick(1000, 10000))]
     timing['tlc_models_and_cases'] = round(time.time() - t0, 1)
     t1 = time.time()
     results = core.pmap(execute, cases)
